@@ -113,6 +113,43 @@ fn replay_cmd(path: &str) -> ! {
 			}
 			std::process::exit(if o.violations.is_empty() { 0 } else { 1 });
 		}
+		"seq-nested-unwind" => {
+			let spec: spec::Spec = serde_json::from_value(r["spec"].clone()).expect("spec");
+			let flavour: interp::Flavour = serde_json::from_value(r["flavour"].clone()).expect("flavour");
+			let write = r["write"].as_bool().unwrap_or(true);
+			let panic = r["panic_in_nested_call"].as_bool().unwrap_or(true);
+			println!("case: a destructor running during an unwind calls {} {} (panic inside that call: {})", spec.describe(), flavour.api(write), panic);
+			let o = seqchecks::run_nested_unwind_case(&spec, write, flavour, panic, true);
+			for l in &o.trace {
+				println!("  {}", l);
+			}
+			println!("  outcome: {} held afterwards: {:?} table: {}", o.outcome, o.held_after, o.table_after);
+			for x in &o.violations {
+				println!("VIOLATION-REPRODUCED property={} {} :: {}", x.prop, x.key, x.detail);
+			}
+			std::process::exit(if o.violations.is_empty() { 0 } else { 1 });
+		}
+		"seq-nonacq" => {
+			let spec: spec::Spec = serde_json::from_value(r["spec"].clone()).expect("spec");
+			let c = seqchecks::NaCase {
+				spec: 0,
+				assign: serde_json::from_value(r["assign"].clone()).expect("assign"),
+				holder: serde_json::from_value(r["holder"].clone()).expect("holder"),
+				op: serde_json::from_value(r["op"].clone()).expect("op"),
+				policy: serde_json::from_value(r["policy"].clone()).expect("policy"),
+				queued_writer: r["queued_writer"].as_bool().unwrap_or(false),
+			};
+			println!("case: {:?} on {} with leaf states {:?} (0 free, 1 read-held, 2 write-held) held by {:?}", c.op, spec.describe(), c.assign, c.holder);
+			let o = seqchecks::run_nonacq_case(&spec, &c, true);
+			for l in &o.trace {
+				println!("  {}", l);
+			}
+			println!("  outcome: {} table: {}", o.outcome, o.table_after);
+			for x in &o.violations {
+				println!("VIOLATION-REPRODUCED property={} {} :: {}", x.prop, x.key, x.detail);
+			}
+			std::process::exit(if o.violations.is_empty() && o.outcome == "ok" { 0 } else { 1 });
+		}
 		"compile" => {
 			println!("offending line: {}\ntwin line:      {}\nfiles: {}", r["offending_line"], r["twin_line"], r["files"]);
 			std::process::exit(0);
